@@ -88,11 +88,25 @@ def module_constants(tree):
     """module-level NAME = <int | list of ints | str> assignments"""
     out = {}
     for ch in tree.body:
+        name = None
         if isinstance(ch, ast.Assign) and len(ch.targets) == 1 and isinstance(ch.targets[0], ast.Name):
-            try:
-                out[ch.targets[0].id] = ast.literal_eval(ch.value)
-            except Exception:
-                pass
+            name, val = ch.targets[0].id, ch.value
+        elif isinstance(ch, ast.AnnAssign) and isinstance(ch.target, ast.Name) and ch.value is not None:
+            name, val = ch.target.id, ch.value
+        if name is None:
+            continue
+        try:
+            out[name] = ast.literal_eval(val)
+        except Exception:
+            # integer expression over earlier constants (e.g. MAX_YEAR = MAX_UNTIL_YEAR - 1)
+            names = {n.id for n in ast.walk(val) if isinstance(n, ast.Name)}
+            ok = all(isinstance(n, (ast.Expression, ast.BinOp, ast.UnaryOp, ast.Constant, ast.Name, ast.Load, ast.operator, ast.unaryop))
+                     for n in ast.walk(val))
+            if ok and names and all(k in out and isinstance(out[k], int) for k in names):
+                try:
+                    out[name] = eval(compile(ast.Expression(val), '<const>', 'eval'), {'__builtins__': {}}, dict(out))
+                except Exception:
+                    pass
     return out
 
 
@@ -486,10 +500,16 @@ class PyExec:
                 res = nxt
             out = []
             for (p, acc) in res:
-                if all(concrete(x) for x in acc):
-                    out.append((p, ''.join(str(x) for x in acc)))
+                flat = []
+                for x in acc:
+                    if isinstance(x, Template):
+                        flat.extend(x.parts)
+                    else:
+                        flat.append(x)
+                if all(concrete(x) for x in flat):
+                    out.append((p, ''.join(str(x) for x in flat)))
                 else:
-                    out.append((p, Template(acc)))
+                    out.append((p, Template(flat)))
             return out
         if isinstance(e, ast.Call):
             return self._call(e, env, pc, fname, depth)
@@ -521,7 +541,11 @@ class PyExec:
             if isinstance(op, ast.LShift):
                 return a << b
             raise PyOutOfReach('operator %s' % type(op).__name__)
-        if isinstance(a, str) or isinstance(b, str):
+        if isinstance(op, ast.Add) and (isinstance(a, (str, Template)) and isinstance(b, (str, Template))):
+            pa = a.parts if isinstance(a, Template) else [a]
+            pb = b.parts if isinstance(b, Template) else [b]
+            return Template(list(pa) + list(pb))
+        if isinstance(a, (str, Template)) or isinstance(b, (str, Template)):
             raise PyOutOfReach('string operator on symbolic value')
         x, y = as_int(a), as_int(b)
         if isinstance(op, ast.Add):
